@@ -195,6 +195,10 @@ REWRITES = {
     "str_is_empty": (r"\bmacro_name\.is_empty\(\)", r"vps::str_is_empty(macro_name)", "str::is_empty: the text has no characters"),
     "s_to_owned": (r"\bs\.to_owned\(\)", r"vstr::to_string_of(s)", "&str::to_owned() is a String with the same text"),
     "get_or_empty_value": (r"value\s*\.get\(&context\)\s*\.ok_or_else\(\|\| PreSetParserError::EmptyValue\(s\.to_string\(\)\)\)\?", r"(match value.get(&context) { Some(v__) => v__, None => return Err(PreSetParserError::EmptyValue(vstr::to_string_of(s))) })", "opt.ok_or_else(|| e)? is the value, or the early return of Err(e)"),
+    "trim_to_string": (r"\b(\w+)\.trim\(\)\.to_string\(\)", r"vsd::trimmed(&\1)", "s.trim().to_string() is the String holding str::trim of the text (a function of the text: trim_of)"),
+    "to_uppercase_of": (r"\.to_uppercase\(\)", r".vupper()", "str::to_uppercase is a function of the text (upper_of)"),
+    "as_str_of": (r"\b(\w+)\.as_str\(\)", r"vsd::as_str_of(&\1)", "String::as_str is the same text as a slice"),
+    "dir_to_string": (r"\bdir\.to_string\(\)", r"vstr::to_string_of(dir)", "&str::to_string() is a String with the same text"),
     "pub_crate": (r"\bpub\(crate\)\s+", r"pub ", "visibility is irrelevant in a single file"),
     "deref_clone": (
         r"(\w+)\.deref\(\)\.clone\(\)", r"vrc::deref_clone(&\1)", "Rc<T>::deref().clone() clones the pointee"),
